@@ -23,6 +23,9 @@ def gen_case(rng: random.Random, i: int, thorough: bool):
     p["alt_ft"] = rng.choice([0.0, 500.0, 3000.0])
     d_yd = rng.choice([3.0, 5.0, 10.0, 25.0, 50.0, 100.0, 100.0, 200.0, 300.0, 500.0, rng.uniform(2, 10), rng.uniform(10, 700), rng.uniform(700, 1500)])
     prev = rng.choice([0.0, 0.0, 0.001, 0.02, -0.003])
+    if i % 6 == 5:
+        # "any previously stored zero elevation": one FAR from the zero being sought (the search starts from it)
+        prev = rng.choice([0.35, -0.35, 0.87, -0.6, 1.05])
     if i % 3 == 1:
         # the wind changes INSIDE the zero distance (different down-range components before and after)
         d_ft = d_yd * 3.0
@@ -291,6 +294,8 @@ def run(chk: core.Check, replay=None) -> None:
             chk.stratum("miss_observed")
         if case["prev_zero_rad"] != 0.0:
             chk.stratum("previous_zero_nonzero")
+        if abs(case["prev_zero_rad"]) >= 0.3 and info["reachable"]:
+            chk.stratum("previous_zero_far_from_the_new_one")
         if case.get("pref_angular") in ("InchesPer100Yd", "CmPer100m") and look >= 5 and info["outcome"] == "Returned":
             chk.stratum("tangent_based_preferred_angle_on_inclined_line")
         if len(case["shot"]["winds"]) >= 2 and case["shot"]["winds"][0][2] < case["d_yd"] * 3.0:
@@ -329,7 +334,7 @@ def run(chk: core.Check, replay=None) -> None:
     chk.sample({k: v for k, v in infos[1].items()})
     chk.sample({"trace_lines": lines[:4]})
     chk.require_strata(["zero_after_a_zero_on_another_sight_line", "unreachable_below_the_altitude_floor", "reachable", "unreachable", "look_level", "look_mild", "look_steep",
-                        "miss_observed", "previous_zero_nonzero", "tangent_based_preferred_angle_on_inclined_line", "small_iteration_cap_ZeroErr", "wind_changes_inside_zero_distance", "steep_and_long"])
+                        "miss_observed", "previous_zero_nonzero", "previous_zero_far_from_the_new_one", "tangent_based_preferred_angle_on_inclined_line", "small_iteration_cap_ZeroErr", "wind_changes_inside_zero_distance", "steep_and_long"])
     chk.exhaustive = False
     chk.rule.append("seeded un-canted shots (G1/G7/.. tables, 600-4000 fps, sight heights -2..6 in, look angles 0, +-5..+-59 deg, 0-2 "
                     "winds, previously stored zero 0 / small / large / negative) x zero distances 10 yd - 1500 yd, plus unreachable "
